@@ -51,3 +51,16 @@ M("C14-R1-kb-1024", "C14", [(U, 'Ok(size) => Some((*size * 1000.0) as u64),', 'O
 M("C14-R1-remove-tib", "C14", [(U, 'if length > 3 && string.ends_with("tib") {', 'if length > 3 && string.ends_with("tibx") {')], ["unit_missing_tib"])
 M("C14-R2-b-first", "C14", [(U, 'if length > 1 && string.ends_with("k") {', 'if length > 1 && string.ends_with("b") && !string.ends_with("kb") {\n        return string[..(length - 1)].parse::<u64>().ok();\n    }\n\n    if length > 1 && string.ends_with("k") {')], ["ladder-order"])
 M("C14-R4-kb-binary", "C14", [(U, '"kb" => {\n            fixed_at = Some(humansize::FixedAt::Kilo);\n            format = humansize::DECIMAL;', '"kb" => {\n            fixed_at = Some(humansize::FixedAt::Kilo);\n            format = humansize::BINARY;')], ["format-unit_kb"])
+
+# ---------------------------------------------------------------- C12
+G = "src/util/glob.rs"
+M("C12-R1-glob-plus-unescaped", "C12", [(G, '            "+" => "\\\\+",\n            "{" => "\\\\{",\n            "}" => "\\\\}",\n            "|" => "\\\\|",\n            "\\\\" => "\\\\\\\\",\n            _ => error_exit("Error parsing glob expression", s),',
+                                          '            "+" => "+",\n            "{" => "\\\\{",\n            "}" => "\\\\}",\n            "|" => "\\\\|",\n            "\\\\" => "\\\\\\\\",\n            _ => error_exit("Error parsing glob expression", s),')], ["convert_glob_to_pattern"])
+M("C12-R1-like-underscore-any", "C12", [(G, '"_" => ".",', '"_" => ".*",')], ["convert_like_to_pattern_wildcard"])
+M("C12-R1-glob-no-end-anchor", "C12", [(G, 'format!("^(?i){}$", string)', 'format!("^(?i){}", string)', 2)], ["anchoring"])
+M("C12-R1-glob-case-sensitive", "C12", [(G, 'format!("^(?i){}$", string)', 'format!("^{}$", string)', 2)], ["anchoring"])
+M("C12-R3-notlike-not-negated", "C12", [(S, "                                            self.regex_cache.insert(val, regex.clone());\n                                            return !regex.is_match(&field_value.to_string());\n                                        }\n                                        _ => error_exit(\"Incorrect LIKE expression\", val.as_str()),",
+                                            "                                            self.regex_cache.insert(val, regex.clone());\n                                            return regex.is_match(&field_value.to_string());\n                                        }\n                                        _ => error_exit(\"Incorrect LIKE expression\", val.as_str()),")], ["complement_NotLike"])
+M("C12-R4-eeq-uses-glob", "C12", [(S, "Op::Eeq => val.eq(&field_value.to_string()),", "Op::Eeq => Regex::new(&convert_glob_to_pattern(&val)).map(|r| r.is_match(&field_value.to_string())).unwrap_or(false),")], ["exact_Eeq"])
+M("C12-R4-like-uses-glob", "C12", [(S, "let pattern = convert_like_to_pattern(&val);", "let pattern = convert_glob_to_pattern(&val);", 2)], ["translator_Like"])
+M("C12-R4-isglob-star-only", "C12", [(G, "s.contains(\"*\") || s.contains('?')", "s.contains(\"*\")")], ["is_glob"])
